@@ -17,7 +17,20 @@ expression forms are shared with rs2lean5a.py) with
   * `serde_json::Value` / `serde_json::Map<String, Value>` / `serde_json::Number` as the model's mirror type `SJ`
     (`Rs.sj*` of RustPrelude6c.lean, a MAPPING), `for (k, je, v) in <iterator struct>` with `?` in the body;
   * a public function whose text branch `if !is_jsonb(value) { let val = parse_value(value)?; return f(&val.to_vec()); }`
-    is kept as a parameter `text__` (as in phases 4 / 5a).
+    is kept as a parameter `text__` (as in phases 4 / 5a);
+  * the ROLLBACK WRAPPER, recognised as a whole and only in exactly this shape (`build_array` / `build_object` over
+    `build_array_into` / `build_object_into`):
+        `let start = buf.len(); let res = f(p1, .., buf, .., pn); if res.is_err() { buf.truncate(start); } res`
+    where `buf` is the only `&mut` parameter of the function (a `&mut Vec<u8>`), every argument is a distinct parameter
+    passed as it is, `f` is a translated free function with the same `Result<(), Error>` and `buf` in its only `&mut`
+    position.  By the convention of all phases a `&mut Vec<u8>` parameter is an argument and the `.ok` result carries
+    the new buffer; on `Err` (and on a panic) the written places are not represented at all.  So `buf.len()` (pure,
+    total), the test and `buf.truncate(start)` (total, and only on `Err`) leave no trace and the wrapper is
+    `def g .. buf : Res Bytes := f .. buf`, the callee's outcome (`Ok` with the callee's buffer, the callee's `Err` or
+    panic).  Anything that differs from the shape is translated (or rejected) by the ordinary rules.
+  The private bodies `build_array_into` / `build_object_into` are OPTIONAL targets: where the source does not define
+  them (the tree before the repair, `build_array` / `build_object` holding the whole body) they are left out without a
+  block or a status line.
 Output: lean/JsonbModel/Generated/Translated6c.lean (namespace Jsonb.Tr, after the phase-1..4 files and the phase-5a
 file, which declares `KeyPath`).
 The semantics of every new primitive is in the hand-written lean/JsonbModel/RustPrelude6c.lean.
@@ -62,12 +75,18 @@ FUNCS6C = [
     (F, None, None, "strip_nulls_array", "strip_nulls_array", "strip"),
     (F, None, None, "strip_nulls_object", "strip_nulls_object", "strip"),
     (F, None, None, "strip_nulls_jsonb", "strip_nulls_jsonb", None),
+    (F, None, None, "build_array_into", "build_array_into", None),
     (F, None, None, "build_array", "build_array", None),
+    (F, None, None, "build_object_into", "build_object_into", None),
     (F, None, None, "build_object", "build_object", None),
     (F, None, None, "delete_jsonb_array_by_keypath", "delete_jsonb_array_by_keypath", "delkp"),
     (F, None, None, "delete_jsonb_object_by_keypath", "delete_jsonb_object_by_keypath", "delkp"),
     (F, None, None, "delete_by_keypath_jsonb", "delete_by_keypath_jsonb", None),
 ]
+
+# targets that exist only after the repair of `build_array` / `build_object` (the bodies moved to private functions, the
+# public names are rollback wrappers): absent from the source => no block, no status
+OPTIONAL6C = {(F, None, "build_array_into"), (F, None, "build_object_into")}
 
 # public functions of the shape `if !is_jsonb(value) { <text branch; returns> } <jsonb helper>(value)`: the text branch
 # calls the JSON text parser and is kept as a parameter `text__` holding its result (phase 4's rule)
@@ -255,6 +274,89 @@ class FnTr6c(FnTr5b):
         if t is not None and t[0] == "named" and t[1] in SERDE_IDS:
             return SERDE_IDS[t[1]]
         return FnTr5b.resolve(self, t)
+
+    # -- the rollback wrapper `let start = buf.len(); let res = f(.., buf, ..); if res.is_err() { buf.truncate(start); } res`
+    def translate(self):
+        w = self.rollback_wrapper()
+        if w is not None:
+            return w
+        return FnTr5b.translate(self)
+
+    def rollback_wrapper(self):
+        """-> ([], def lines) when the body is exactly the rollback wrapper (see the module docstring), else None (the
+        ordinary rules then translate or reject the body)"""
+        if self.group is not None or self.impl is not None or len(self.mutparams) != 1 or self.mutparams[0] == "self":
+            return None
+        buf = self.mutparams[0]
+        pty = dict(self.params)
+        if not is_bytes(pty.get(buf)) or self.ret[0] != "res" or self.ret_value_type() != ("unit",):
+            return None
+        bp = self.body_parser
+        try:
+            q = type(bp)(bp.t, bp.i)
+            body = q.parse_block()
+            if q.peek().k != "eof":
+                return None
+        except Unsupported:
+            return None
+
+        def var(e, name=None):
+            e = strip(e) if e is not None else None
+            return e is not None and e.kind == "path" and len(e.segs) == 1 and (name is None or e.segs[0] == name)
+
+        def let_of(s):
+            if s.kind == "let" and s.ty is None and s.init is not None and s.pat.kind == "p_path" and len(s.pat.path) == 1:
+                return s.pat.path[0], strip(s.init)
+            return None, None
+        if len(body.stmts) != 3 or body.tail is None:
+            return None
+        start, e0 = let_of(body.stmts[0])
+        res, e1 = let_of(body.stmts[1])
+        names = [n for n, _ in self.params]
+        if start is None or res is None or start == res or start in names or res in names:
+            return None
+        if not (e0.kind == "mcall" and e0.name == "len" and not e0.args and var(e0.recv, buf)):
+            return None
+        if not (e1.kind == "call" and e1.f.kind == "path" and len(e1.f.segs) == 1 and all(var(a) for a in e1.args)):
+            return None
+        args = [strip(a).segs[0] for a in e1.args]
+        if len(set(args)) != len(args) or any(a not in names for a in args) or args.count(buf) != 1:
+            return None
+        s2 = body.stmts[2]
+        if not (s2.kind == "expr" and s2.e.kind == "if" and s2.e.els is None):
+            return None
+        c = strip(s2.e.cond)
+        if not (c.kind == "mcall" and c.name == "is_err" and not c.args and var(c.recv, res)):
+            return None
+        th = s2.e.then
+        if not (th.kind == "block" and th.tail is None and len(th.stmts) == 1 and th.stmts[0].kind == "expr"):
+            return None
+        t = strip(th.stmts[0].e)
+        if not (t.kind == "mcall" and t.name == "truncate" and len(t.args) == 1 and var(t.recv, buf) and var(t.args[0], start)):
+            return None
+        if not var(body.tail, res):
+            return None
+        # the callee: a translated free function, same result type, `buf` in its only `&mut` position, same types
+        self.scopes = []
+        self.push()
+        for n, ty in self.params:
+            self.bind(n, ty)
+        sig = self.callee_sig(e1)
+        if sig is None or sig.get("group") is not None or sig.get("fmt") or sig.get("fuel") or sig.get("writer") \
+                or sig.get("holder"):
+            return None
+        cps = sig["params"]
+        if sig["ret"] != self.ret or len(cps) != len(args) or list(sig.get("mut", [])) != [cps[args.index(buf)][0]]:
+            return None
+        for a, (_, cty) in zip(args, cps):
+            if pty[a] != cty:
+                return None
+        binders = "".join("(%s : %s) " % (lname(n), self.lt(ty)) for n, ty in self.params)
+        head = "def %s %s: Res %s :=" % (self.lean, binders, self.lean_ret())
+        return [], [head,
+                    "  -- rollback wrapper: `%s` is the buffer on `Ok` only; `%s.truncate(%s)` acts on `Err`, where no buffer is represented"
+                    % (lname(buf), buf, start),
+                    "  (%s %s)" % (sig["lean"], " ".join(lname(a) for a in args))]
 
     def lt(self, t):
         return lean_type6c(t, self.w)
@@ -716,6 +818,8 @@ def generate(repo, prev_text):
     for file, impl, trait, name, lean, group in FUNCS6C:
         key = key_of(file, impl, name)
         hits = world.find(file, "fn", name, impl, trait)
+        if not hits and (file, impl, name) in OPTIONAL6C and file not in world.file_errors:
+            continue
         if not hits:
             status[key] = ("unsupported: cannot read %s: %s" % (file, world.file_errors[file])) if file in world.file_errors else "missing"
             continue
@@ -742,6 +846,8 @@ def generate(repo, prev_text):
     done_groups = set()
     for idx, (file, impl, trait, name, lean, group) in enumerate(FUNCS6C):
         key = key_of(file, impl, name)
+        if (file, impl, name) in OPTIONAL6C and key not in items and key not in status:
+            continue
         if group is None:
             lines = None
             if key in items:
